@@ -140,6 +140,17 @@ DIRECTED = [
         {"op": "const", "d": 1, "c": F(10, 0, 100, "HalfAway", 10)}, {"op": "sqr", "d": 2, "a": 1}, {"op": "const", "d": 3, "c": F(1, 1, 100, "HalfAway", 10)},
         {"op": "mul", "d": 4, "a": 1, "b": 1, "f": "rv"}, {"op": "const", "d": 5, "c": F(50, -2, 100, "Zero", 6)}, {"op": "sqr", "d": 5, "a": 5},
         {"op": "const", "d": 1, "c": F(25, -3, 100, "Zero", 6)}]},
+    # integral parts that are multiples of the base (120.5, -3000.25, 6.25 in binary) through trunc / split_at_point / floor / round
+    # against the same integer built directly: every accessor must hand back a normalised number
+    {"pool": "F", "nr": 6, "steps": [
+        {"op": "const", "d": 1, "c": F(1205, -1, 10, "HalfAway", 8)}, {"op": "trunc", "d": 2, "a": 1}, {"op": "splitint", "d": 3, "a": 1},
+        {"op": "const", "d": 4, "c": F(12, 1, 10, "HalfAway", 8)}, {"op": "floor", "d": 5, "a": 1}, {"op": "splitfract", "d": 6, "a": 1},
+        {"op": "fract", "d": 4, "a": 1}, {"op": "const", "d": 1, "c": F(-300025, -2, 10, "Zero", 12)}, {"op": "splitint", "d": 2, "a": 1},
+        {"op": "trunc", "d": 3, "a": 1}, {"op": "const", "d": 5, "c": F(-3, 3, 10, "Zero", 12)}]},
+    {"pool": "F", "nr": 5, "steps": [
+        {"op": "const", "d": 1, "c": F(25, -2, 2, "Zero", 10)}, {"op": "splitint", "d": 2, "a": 1}, {"op": "trunc", "d": 3, "a": 1},
+        {"op": "const", "d": 4, "c": F(3, 1, 2, "Zero", 10)}, {"op": "round", "d": 5, "a": 1}, {"op": "const", "d": 1, "c": F(0x405, -1, 16, "HalfAway", 9)},
+        {"op": "splitint", "d": 2, "a": 1}, {"op": "trunc", "d": 3, "a": 1}, {"op": "const", "d": 4, "c": F(4, 1, 16, "HalfAway", 9)}]},
     # rationals from floats: the denominator is a power of the base, the numerator shares factors with it
     {"pool": "Q", "nr": 6, "steps": [
         {"op": "fromfloat", "d": 1, "c": {"sig": I(5), "exp": -1, "base": 10}, "f": "R"}, {"op": "const", "d": 2, "c": Qc(1, 2, "R"), "f": "parts"},
